@@ -154,7 +154,7 @@ def judge_crop(ctx, start, step, n, a, b, lc, rc, with_attr, two_d, arr=None, hi
 
 
 # ----------------------------------------------------------------- extend_dim
-def _side(last, step, bound, closed, direction):
+def _side(last, step, bound, closed, direction, eps=OPEN_END_EPS):
     """Number of new lattice points beyond ``last`` towards ``bound``: (definite, undecided)."""
     definite = undecided = 0
     k = 1
@@ -162,7 +162,7 @@ def _side(last, step, bound, closed, direction):
         p_exact = F(last) + direction * k * F(step)
         p_float = last + direction * k * step
         d = (F(bound) - p_exact) * direction  # >0: strictly inside
-        if d < -F(2 * OPEN_END_EPS):
+        if d < -F(2 * eps):
             break
         coincide = p_exact == F(bound) or p_float == bound
         if coincide:
@@ -172,7 +172,7 @@ def _side(last, step, bound, closed, direction):
             # open end: excluded, nothing further can be inside
             if not closed:
                 break
-        elif abs(d) <= F(2 * OPEN_END_EPS):
+        elif abs(d) <= F(2 * eps):
             undecided += 1
         elif d > 0:
             definite += 1 + undecided
@@ -181,22 +181,25 @@ def _side(last, step, bound, closed, direction):
     return definite, undecided
 
 
-def judge_extend(ctx, start, step, n, a, b, lc, rc, with_attr, two_d, arr=None, history=None):
+def judge_extend(ctx, start, step, n, a, b, lc, rc, with_attr, two_d, arr=None, history=None, eps=None):
     from soundevent.arrays import operations as O
 
     arr = _mk(start, step, n, with_attr, two_d) if arr is None else arr
     coords = np.asarray(arr.time.data)
     spec = {"kind": "extend", "start": start, "step": step, "n": n, "a": a, "b": b, "lc": lc, "rc": rc, "attr": with_attr, "two_d": two_d, "history": history}
+    if eps is not None:
+        spec["eps"] = eps
     try:
-        res = O.extend_dim(arr, "time", start=a, stop=b, fill_value=FILL, left_closed=lc, right_closed=rc)
+        ekw = {} if eps is None else {"eps": eps}
+        res = O.extend_dim(arr, "time", start=a, stop=b, fill_value=FILL, left_closed=lc, right_closed=rc, **ekw)
     except Exception as e:
         ctx.violate_exc("extend:raises", f"extend:raises:{type(e).__name__}", e, spec=spec)
         return
-    if ctx.every(spec, 3) and history is None:
+    if ctx.every(spec, 3) and history is None and eps is None:
         calling.agree(ctx, "extend_dim", O.extend_dim, dict(arr=arr, dim="time", start=a, stop=b, fill_value=FILL, left_closed=lc, right_closed=rc), spec, same=_same_array,
                       variants={"boolish_flags": {"left_closed": calling.boolish(ctx.rng, lc), "right_closed": calling.boolish(ctx.rng, rc)},
                                 "numlike_bounds": {"start": calling.numlike(ctx.rng, a), "stop": calling.numlike(ctx.rng, b)}})
-    if ctx.every(spec, 5) and history is None:
+    if ctx.every(spec, 5) and history is None and eps is None:
         _bounds_as_arrays_reused(ctx, O.extend_dim, "extend_dim", arr, a, b, lc, rc, res, spec, fill_value=FILL)
     ctx.mon("extend.oracle")
     gc = np.asarray(res.time.data)
@@ -222,8 +225,8 @@ def judge_extend(ctx, start, step, n, a, b, lc, rc, with_attr, two_d, arr=None, 
     n_left, n_right = first, len(gc) - 1 - max(orig_idx)
     lo = coords[0] if a is None else a
     hi = coords[-1] if b is None else b
-    dl, ul = _side(float(coords[0]), step, lo, lc, -1)
-    dr, ur = _side(float(coords[-1]), step, hi, rc, +1)
+    dl, ul = _side(float(coords[0]), step, lo, lc, -1, eps if eps is not None else OPEN_END_EPS)
+    dr, ur = _side(float(coords[-1]), step, hi, rc, +1, eps if eps is not None else OPEN_END_EPS)
     if ul or ur:
         ctx.dc("extend:end_within_eps_of_lattice_point")
     for name, got, d0, u0, bound, closed in (("left", n_left, dl, ul, lo, lc), ("right", n_right, dr, ur, hi, rc)):
@@ -391,6 +394,17 @@ def run(ctx):
                      {"kind": "extend", "start": st, "step": stp, "n": n, "a": a, "b": b, "lc": lc, "rc": rc, "attr": attr, "two_d": two_d},
                      nontrivial=stp != int(stp))
             judge_extend(ctx, st, stp, n, a, b, lc, rc, attr, two_d)
+            if rng.random() < 0.25:
+                # the tolerance at the ends is the caller's (`eps`): a fine axis needs a fine one
+                eps = rng.choice([1e-8, 1e-9, 1e-7])
+                fine = rng.choice([1 / 192000, 1 / 384000, stp])
+                coords2 = st + np.arange(n) * fine
+                a2 = float(coords2[0] - kl * fine) if kl else None
+                b2 = float(coords2[-1] + (kr + off[how_r]) * fine) if kr or how_r != "on" else None
+                if a2 is not None and a2 < 0:
+                    a2 = None
+                ctx.case(("extend", "custom_eps", "lc" if lc else "lo", "rc" if rc else "ro"), {"kind": "extend", "start": st, "step": fine, "n": n, "a": a2, "b": b2, "lc": lc, "rc": rc, "attr": attr, "two_d": False, "eps": eps})
+                judge_extend(ctx, st, fine, n, a2, b2, lc, rc, attr, False, eps=eps)
     run_chains(ctx)
     run_contents(ctx)
 
@@ -570,7 +584,7 @@ def replay(ctx, w):
     if k == "crop":
         judge_crop(ctx, s["start"], s["step"], s["n"], s["a"], s["b"], s["lc"], s["rc"], s.get("attr", True), s.get("two_d", False))
     elif k == "extend":
-        judge_extend(ctx, s["start"], s["step"], s["n"], s["a"], s["b"], s["lc"], s["rc"], s.get("attr", True), s.get("two_d", False))
+        judge_extend(ctx, s["start"], s["step"], s["n"], s["a"], s["b"], s["lc"], s["rc"], s.get("attr", True), s.get("two_d", False), eps=s.get("eps"))
     elif k == "content":
         judge_content(ctx, s["op"], s["start"], s["step"], s["n"], s["content"], float("nan") if s["fill"] == "nan" else s["fill"], s["k_left"], s["k_right"], s["attr"], s["two_d"])
     elif k == "width":
